@@ -74,10 +74,12 @@ structure Identity where
   deriving DecidableEq, Repr
 
 /-- the `QVariant` held by a `QXmppDataForm::Field` (as produced by `QXmppDataForm::parse` and by the
-typed setters): a `QString` (text-single, hidden, list-single, jid-single, fixed, text-private),
+typed setters): a non-null `QString`, possibly empty (text-single, hidden, list-single, jid-single, fixed, text-private;
+`parse` yields the empty one for `<value/>`), a null `QString` / invalid variant (no `<value/>` at all),
 a `QStringList` (list-multi, jid-multi, text-multi) or a `bool` (boolean) -/
 inductive Value
   | text (s : Str)
+  | null
   | list (vs : List Str)
   | bool (b : Bool)
   deriving DecidableEq, Repr
@@ -118,24 +120,26 @@ def identityStr (d : Identity) : Str :=
 /-- `QVariant::toString()` (Qt 5.15): a string list converts only when it has exactly one element -/
 def Value.toStr : Value → Str
   | .text s => s
+  | .null => []
   | .list [v] => v
   | .list _ => []
   | .bool true => "true".toList
   | .bool false => "false".toList
 
 /-- the XML character data of the `<value/>` children `QXmppDataForm::toXml` writes for the field (and which
-`QXmppDataForm::parse` turns back into the same variant): an empty single value writes no element,
-a boolean writes `1` / `0`, a list writes one element per entry -/
+`QXmppDataForm::parse` turns back into the same variant): a single value is written unless the string is NULL — an empty
+non-null one is written as `<value/>` (repo commit 06b3045) —, a boolean writes `1` / `0`, a list one element per entry -/
 def Value.wire : Value → List Str
-  | .text [] => []
   | .text s => [s]
+  | .null => []
   | .list vs => vs
   | .bool true => [['1']]
   | .bool false => [['0']]
 
-/-- the values the C++ appends for a field (since repo commit 03b8892 "caps hash covers exactly the values written for
-extended info form fields"): by field type exactly the `<value/>` elements `toXml` writes — boolean `1`/`0`, multi-valued
-types the list, every other type the string unless empty — sorted with `octetLessThan` -/
+/-- the values `verificationString()` takes for a field: by field type exactly the `<value/>` elements `toXml` writes —
+boolean `1`/`0`, multi-valued types the list, every other type the string unless it is null (repo commits "caps hash
+covers exactly the values written for extended info form fields" and "caps hash includes an empty but non-null form
+value, as the form is written") — sorted with `octetLessThan` -/
 def Value.codeVals (v : Value) : List Str := isort lt8 v.wire
 
 /-- `key + '<'`, then every value followed by `'<'` -/
